@@ -267,6 +267,65 @@ int main(int argc, char** argv) {
         R.extra_json = "\"known_defects_present\":" + guardJson;
         return R.main_tail(a);
     }
+    if (space == "idtable") {
+        // getElementById under ID churn with keys that are FORCED to collide in the document's open-addressing ID table (997 slots, double
+        // hashing: a key with k = hash(id, 996) + 1 probes k, 2k, 3k ...).  Five elements carry fixed ID strings chosen with the public
+        // XMLString::hash so that two share a probe sequence (k = b), one sits on their second probe (k = 2b), one on the third (k = 3b) and
+        // one is unrelated; operations: give element i its ID attribute / remove it / re-value it to a spare colliding string.  EVERY history
+        // of <= depth operations is executed; after every step getElementById of every string ever used must return exactly the element that
+        // currently carries it.
+        static std::vector<std::u16string> IDS;   // 0,1: k=b   2: k=2b   3: k=3b   4: unrelated   5: spare with k=b
+        if (IDS.empty()) {
+            const XMLSize_t b = 1;
+            std::map<XMLSize_t, std::vector<std::u16string>> byK;
+            for (int n = 0; n < 400000 && (byK[b].size() < 3 || byK[2 * b].empty() || byK[3 * b].empty() || byK[500].empty()); n++) {
+                std::string t = "n" + std::to_string(n); std::u16string u(t.begin(), t.end());
+                XMLSize_t k = XMLString::hash((const XMLCh*)u.c_str(), 996) + 1;
+                if (k == b || k == 2 * b || k == 3 * b || k == 500) byK[k].push_back(u);
+            }
+            if (byK[b].size() < 3 || byK[2 * b].empty() || byK[3 * b].empty() || byK[500].empty()) { fprintf(stderr, "idtable: no colliding strings found\n"); return 3; }
+            IDS = {byK[b][0], byK[b][1], byK[2 * b][0], byK[3 * b][0], byK[500][0], byK[b][2]};
+        }
+        static int idDepth = 5;
+        idDepth = (int)a.num("depth", 5);
+        static const int NOPS = 15;   // 0..4 add id to element i, 5..9 remove it, 10..14 re-value element i to the spare string (or back)
+        Runner R; R.name = space; R.total = words_upto(NOPS, idDepth);
+        R.fn = [](uint64_t idx, Ctx& c) {
+            std::vector<int> ops = word_at(idx, NOPS, idDepth);
+            static const XMLCh ls[] = {'L', 'S', 0};
+            DOMImplementation* impl = DOMImplementationRegistry::getDOMImplementation(ls);
+            DOMDocument* d = impl->createDocument();
+            static const XMLCh rN[] = {'r', 0}, eN[] = {'e', 0}, idN[] = {'i', 'd', 0};
+            DOMElement* r = d->createElement(rN); d->appendChild(r);
+            DOMElement* e[5]; int cur[5];   // cur[i]: index into IDS of the value element i carries as ID, -1 none
+            for (int i = 0; i < 5; i++) { e[i] = d->createElement(eN); r->appendChild(e[i]); cur[i] = -1; }
+            std::string hist;
+            for (int op : ops) {
+                int i = op % 5, kind = op / 5;
+                hist += (kind == 0 ? "add" : kind == 1 ? "remove" : "revalue") + std::to_string(i) + ";";
+                if (kind == 0) { if (cur[i] >= 0) { c.count("idtable_skipped_noop"); continue; } e[i]->setAttribute(idN, (const XMLCh*)IDS[i].c_str()); e[i]->setIdAttribute(idN, true); cur[i] = i; }
+                else if (kind == 1) { if (cur[i] < 0) { c.count("idtable_skipped_noop"); continue; } e[i]->removeAttribute(idN); cur[i] = -1; }
+                else {
+                    if (cur[i] < 0) { c.count("idtable_skipped_noop"); continue; }
+                    int nv = cur[i] == 5 ? i : 5;
+                    bool taken = false; for (int j = 0; j < 5; j++) if (j != i && cur[j] == nv) taken = true;
+                    if (taken) { c.count("idtable_skipped_duplicate_value"); continue; }
+                    e[i]->setAttribute(idN, (const XMLCh*)IDS[nv].c_str()); cur[i] = nv;
+                }
+                for (int v = 0; v < 6; v++) {
+                    DOMElement* want = nullptr; for (int j = 0; j < 5; j++) if (cur[j] == v) want = e[j];
+                    DOMElement* got = d->getElementById((const XMLCh*)IDS[v].c_str());
+                    c.count("id_lookups"); if (want) c.count("id_lookups_hit");
+                    if (got != want) { c.violation("idtable-getElementById", "\"history\":" + jstr(hist) + ",\"value_index\":" + std::to_string(v) + ",\"expected\":" + (want ? "\"element\"" : "\"null\"") + ",\"observed\":" + (got ? "\"element\"" : "\"null\"")); break; }
+                }
+            }
+            c.count("idtable_histories");
+            d->release();
+        };
+        R.describe = [](uint64_t i) { std::string h; for (int o : word_at(i, NOPS, idDepth)) h += std::to_string(o) + ","; return "{\"ops\":" + jstr(h) + "}"; };
+        R.extra_json = "\"depth\":" + std::to_string(idDepth) + ",\"alphabet\":15";
+        return R.main_tail(a);
+    }
     if (space == "longtext") {
         // Range content operations on one long Text node: lengths and offsets around the 4000-character stack buffers of
         // DOMRangeImpl::traverseTextNode.  doc -> r -> [t(len L), e]; range A = (t,o)-(r,2), range B = (r,0)-(t,o); operation in
